@@ -1,4 +1,5 @@
 """C01 nodal balance."""
+import random
 import common as C
 import gen
 from props import util
@@ -91,6 +92,21 @@ def run(ctx):
         sp['id'] = sp['id'].replace('_resc', '_mixed')
     util.add_split(mixed)
     specs += mixed
+    # everything fixed (must-take profiles, fixed loads): balanced by construction or not -- a failure is fine, an unbalanced solution is not
+    fx = gen.gen_many(ctx.seed, n // 4, dict(CFG, p_coarse=0.0, p_periodic=0.0, p_window=0.0, nodes=(1, 2), n_assets=(1, 3), p_market=1.0,
+                                             kinds={'SimpleContract': 3, 'Transport': 1}), 'c01fix_')
+    for sp in fx:
+        for a in sp['assets']:
+            if a['kind'] == 'SimpleContract':
+                a['min_cap'] = a['max_cap'] = gen.k8(random.Random(sp['id'] + a['name']), -3, 3)
+            elif a['kind'] == 'Transport':
+                a['min_cap'] = a['max_cap'] = abs(gen.k8(random.Random(sp['id'] + a['name']), 0, 2))
+    specs += fx
+    # the first steps fixed to an earlier solution after the portfolio has changed (losses, commodity factors)
+    rf = gen.gen_many(ctx.seed, n // 3, dict(CFG, p_coarse=0.0, p_periodic=0.0, nodes=(2, 3), kinds={'SimpleContract': 2, 'Transport': 4, 'MultiCommodityContract': 3, 'Storage': 1}), 'c01rf_')
+    for i, sp in enumerate(rf):
+        sp['opts']['refix'] = 2 + i % 4
+    specs += rf
     specs = ctx.specs(specs)
     res = C.run_impl('portfolio', specs)
     exprs, owners = [], []
@@ -111,6 +127,11 @@ def run(ctx):
         if o.get('problem_changed_by_optimize'):
             ctx.violation('impl-violation', {'spec': sp, 'observed': {'fields of the problem changed by optimize()': o['problem_changed_by_optimize']},
                                              'expected': 'the rows the solver worked on are the assembled ones (nodal rows untouched)'}, trigger={'what': 'problem changed by optimize'})
+        q = o.get('refix')
+        if isinstance(q, dict):
+            ctx.count('refix:' + str(q.get('solve')))
+            if q.get('solve') == 'optimal' and q.get('out'):
+                runs.append(('first steps fixed after a change of the portfolio', q['out']['dispatch']))
         for mode, disp in runs:
             ctx.cov['impl_oracle_evaluations'] += 1
             bad = util.nodal_imbalance(o, disp)
